@@ -186,7 +186,7 @@ theorem avx_indexbytebody_inv (mem : Nat → UInt8) (base len : Nat) (c : UInt8)
       constructor <;> avx_step [Gen.Asm.body_indexbytebody, hSI, hDI, hR11, hY1, hmem, hout, a0, hzf, hfb, hsub, haddk, h63]
 
 theorem movd_lane0 (ax : Nat) (c : UInt8) (hAL : ax % 256 = c.toNat) :
-    (if 0 < 4 then UInt8.ofNat (ax / 256 ^ 0 % 256) else 0) = c := by
+    (if 0 < 8 then UInt8.ofNat (ax / 256 ^ 0 % 256) else 0) = c := by
   rw [if_pos (by omega), Nat.pow_zero, Nat.div_one, hAL]
   exact Utf8.ofNat_toNat_id c
 
